@@ -152,6 +152,17 @@ Definition ffi_filter_v4 (s : str) : option afilter :=
   end.
 
 
+(* parse_address_filter in full: s.parse::<IpAddr>() (IPv4 literal, else IPv6 literal), else the wildcard
+   parser. The standard library's IPv6 literal parser is a parameter. *)
+Definition ffi_filter (parse_v6 : str -> option ip) (s : str) : option afilter :=
+  match parse_ipv4 s with
+  | Some a => Some (AnyOf [a])
+  | None => match parse_v6 s with
+            | Some a => Some (AnyOf [a])
+            | None => option_map WildcardIpv4 (parse_wildcard s)
+            end
+  end.
+
 (* ---------- the accept arm of ServerTask::run, driven by the GENERATED shape ---------- *)
 (* what the server task does with a freshly accepted (socket, addr), as the sequence of calls the
    arm makes; `CallHandle` = self.handle(socket, addr): the only call that registers the connection
